@@ -181,6 +181,9 @@ func init() {
 		{ID: "E1.redirect.try-error-redirect", Fn: "op.TryErrorRedirect", P: []string{"ctx", "authReq", "parent", "encoder", "logger"}, Kind: "ret ok", Pat: "ret(op.NewRedirect($url), nil)", Max: 1,
 			Req: []string{"nonnil($authReq)", `neq($authReq.GetRedirectURI(), "")`, "false($e.IsRedirectDisabled())", "def($e, oidc.DefaultToServerError(__))",
 				"def($url, op.AuthResponseURL($authReq.GetRedirectURI(), $authReq.GetResponseType(), _, $e, _), 0)", "ok(op.AuthResponseURL($authReq.GetRedirectURI(), $authReq.GetResponseType(), _, $e, _))"}},
+		{ID: "E1.redirect.error-normaliser-keeps-error", Fn: "oidc.DefaultToServerError", P: []string{"err", "description"}, Kind: "ret any",
+			Why: "an error that already is an *oidc.Error is handed back itself (with its redirect-disabled mark); only other errors are wrapped into a new server_error",
+			Req: []string{"notErrAs($err, _) || (errAs($err, $t) && same($r0, $t))"}},
 		{ID: "E1.redirect.try-error-redirect.only", Fn: "op.TryErrorRedirect", Kind: "ret ok", Max: 1},
 		// success responses use the stored request's URI
 		{ID: "E8.redirect.code-response", Fn: "op.AuthResponseCode", P: []string{"w", "r", "authReq", "authorizer"}, Kind: "call", Pat: "http.Redirect(_, _, $cb, _)", Max: 1,
@@ -198,6 +201,14 @@ func init() {
 		{ID: "E1.redirect.server.authorize.only", Fn: "op.(*webServer).authorize", Kind: "ret ok", Max: 1},
 		{ID: "E1.redirect.legacy-server.verify", Fn: "op.(*LegacyServer).VerifyAuthRequest", P: []string{"s", "ctx", "r"}, Kind: "ret ok", Pat: "ret(&ClientRequest{Request: $r, Client: $client}, nil)", Max: 1,
 			Req: []string{"def($client, _.GetClientByClientID(_, $r.Data.ClientID), 0)", "ok(_.GetClientByClientID(_, $r.Data.ClientID))", `neq($r.Data.ClientID, "")`}},
+	}
+	for _, o := range obs {
+		switch o.ID {
+		case "E1.redirect.authorize.error-redirects", "E1.redirect.error-redirector", "E1.redirect.error-redirector.error-is-callers",
+			"E1.redirect.try-error-redirect", "E1.redirect.error-normaliser-keeps-error":
+			// C10: "an error redirect [only] to the already validated redirect URI" when the storage fails
+			sharedObs["C10"] = append(sharedObs["C10"], o)
+		}
 	}
 	register(&PropSpec{
 		ID: "C03",
